@@ -10,13 +10,23 @@ import ecc_scen as es
 import ecc_util as eu
 from common import hx
 
-LEAN_MODULES = ["Pff.Props.C08"]
+LEAN_MODULES = ["Pff.Props.C08", "Pff.Props.RunA"]
 PROP_MODULE = "Pff.Props.C08"
 THEOREMS = ["Pff.Entry.C08_independent", "Pff.Entry.C08_glued", "Pff.Entry.C08_fields_ignore_trailing", "Pff.Entry.C08_overlong_track_whole",
-            "Pff.Entry.C08_overlong_track_header", "Pff.Scan.C14_scan_built", "Pff.Scan.C14_content_built"]
+            "Pff.Entry.C08_overlong_track_header", "Pff.Scan.C14_scan_built", "Pff.Scan.C14_content_built",
+            "Pff.Run.C08_run_cursor_bounds",
+            "Pff.Run.C08_run_visits",
+            "Pff.Run.C08_run_local",
+            "Pff.Run.C08_run_header_own_bytes",
+            "Pff.Run.C08_run_reads_inside",
+            "Pff.Run.C08_run_whole_file_bridge",
+            "Pff.Run.C08_run_long_enough_reads_inside",
+            "Pff.Run.C08_run_independent",
+            "Pff.Run.C08_run_independent_header"]
 MODELLED = [("pyFileFixity/header_ecc.py", "main"), ("pyFileFixity/header_ecc.py", "entry_fields"),
             ("pyFileFixity/structural_adaptive_ecc.py", "main"), ("pyFileFixity/structural_adaptive_ecc.py", "entry_fields"),
             ("pyFileFixity/lib/aux_funcs.py", "get_next_entry")]
+MODELLED = sorted(set(MODELLED + fx.WHOLE_RUN_MODELLED))
 TRUSTED_BASE = [
     "Lean 4.33.0 kernel; axioms per theorem under coverage.theorems (subset of propext, Classical.choice, Quot.sound)",
     "PROVED: with the bytes of one entry replaced by arbitrary bytes of any length (no additional marker spelled), or its marker destroyed "
@@ -198,6 +208,11 @@ def run(oc, tier, seed, model_available, escalate):
         if it % max(1, n // 4) == 0:
             oc.sample({"params": P.describe(), "tree": {k: len(v) for k, v in tree.items()}, "victim": order[vi], "damage": kd, "exit": rc, "stats": st,
                        "pristine_stats": st0})
+    # ---- whole-run correspondence: complete `-c` runs replayed into the Lean model of the correction loop (Pff.Run.run)
+    os.makedirs(d, exist_ok=True)
+    wl, wi = fx.whole_run_cases(rng, (40 if tier == "quick" else 300) * (2 if escalate else 1), ["victim"], d, oc)
+    lines += wl
+    impl += wi
     shutil.rmtree(d, ignore_errors=True)
     if model_available:
         model, err = common.run_driver(lines)
